@@ -80,6 +80,8 @@ func VerifE01Check() {
 	m := vtmodels.Model(vt.Param("model", "direct"))
 	ts, err := typesystem.New(m)
 	vt.Assert(err == nil && ts != nil, "typesystem.New failed on a validated model")
+	vtsem.StarSecondID = vt.ParamInt("starid", 0) == 1
+	vtsem.LowFirstID = vt.ParamInt("lowid", 0) == 1
 	u := vtsem.NewUniverse(m, vt.ParamInt("nobj", 2), vt.ParamInt("invalid", 1) == 1)
 	u.Restrict(vt.ParamInt("maxcands", 12), vt.ParamInt("seed", 0))
 	st := vtsem.NewSymbolicStore(u)
@@ -97,12 +99,23 @@ func VerifE01Check() {
 	vt.Event(u.Describe())
 
 	ctx := typesystem.ContextWithTypesystem(context.Background(), ts)
-	var reader storage.RelationshipTupleReader = &vtsem.Reader{S: st}
+	// C10 ("hc" = 1): the request asks for HIGHER_CONSISTENCY and the reader asserts that every read it serves
+	// carries that preference
+	consistency := openfgav1.ConsistencyPreference_UNSPECIFIED
+	if vt.ParamInt("hc", 0) == 1 {
+		consistency = openfgav1.ConsistencyPreference_HIGHER_CONSISTENCY
+	}
+	var reader storage.RelationshipTupleReader = &vtsem.Reader{S: st, RequireHC: vt.ParamInt("hc", 0) == 1}
 	var ctxTuples []*openfgav1.TupleKey
 	if k := vt.ParamInt("ctx", 0); k > 0 {
 		// C04: the first k candidates are not in the store; those that are "present" are sent as contextual
 		// tuples through the real CombinedTupleReader. The reference semantics ignores the split.
-		ctxTuples = st.SplitContextual(k)
+		// "ctxdup" = 1: they ALSO stay in the store (the same tuple stored and contextual).
+		if vt.ParamInt("ctxdup", 0) == 1 {
+			ctxTuples = st.ContextualCopies(k)
+		} else {
+			ctxTuples = st.SplitContextual(k)
+		}
 		reader = storagewrappers.NewCombinedTupleReader(reader, ctxTuples)
 		vt.Event("contextual tuples: " + strconv.Itoa(len(ctxTuples)) + " of the first " + strconv.Itoa(k) + " valid candidates")
 	}
@@ -137,6 +150,7 @@ func VerifE01Check() {
 		TupleKey:             tuple.NewTupleKey(rq.obj, rq.rel, rq.user),
 		Context:              reqCtx,
 		ContextualTuples:     ctxTuples,
+		Consistency:          consistency,
 	})
 	vt.Assert(rerr == nil, "NewResolveCheckRequest failed")
 	if vt.ParamInt("prior", 0) == 1 {
@@ -154,6 +168,7 @@ func VerifE01Check() {
 			TupleKey:             tuple.NewTupleKey(pq.obj, pq.rel, pq.user),
 			Context:              reqCtx,
 			ContextualTuples:     ctxTuples,
+			Consistency:          consistency,
 		})
 		_, _ = checker.ResolveCheck(ctx, preq)
 		vp.nextRound()
@@ -195,9 +210,17 @@ func VerifE01Check() {
 		vt.Assert(want.IsError() || ff.IsError(), "engine returned an error although no unevaluable condition is involved in the answer")
 		return
 	}
-	if resp.GetAllowed() {
+	switch {
+	case want.IsError():
+		// the answer hinges on a condition that cannot be evaluated: the request has to fail
+		if resp.GetAllowed() {
+			vt.Assert(false, "engine allowed a check whose answer depends on a condition that cannot be evaluated")
+		} else {
+			vt.Assert(false, "engine denied (without an error) a check whose answer depends on a condition that cannot be evaluated")
+		}
+	case resp.GetAllowed():
 		vt.Assert(want.IsTrue(), "engine allowed a check the semantics denies")
-	} else {
+	default:
 		vt.Assert(want.IsFalse(), "engine denied a check the semantics allows")
 	}
 	if vt.ParamInt("repeat", 0) == 1 {
@@ -207,6 +230,7 @@ func VerifE01Check() {
 			AuthorizationModelID: m.GetId(),
 			TupleKey:             tuple.NewTupleKey(rq.obj, rq.rel, rq.user),
 			Context:              reqCtx,
+			Consistency:          consistency,
 		})
 		vp.nextRound()
 		resp2, cerr2 := checker.ResolveCheck(ctx, req2)
